@@ -6,15 +6,17 @@ use crate::util::*;
 use serde_json::{json, Value};
 use std::path::Path;
 
+// a group's rules are separated by `;` here; in the file they stand on lines of their own with an EMPTY LINE between them
+// (doc-cli: empty lines inside a group's rule list are allowed; only after a description does an empty line end the group)
 const FILES: [&[(&str, &str)]; 3] = [
-    &[("Alpha", "a > e"), ("Beta", "e > i / _#"), ("Gamma", "t > d / V_V")],
-    &[("One", "k > g / V_V"), ("Two", "i > u / _#")],
+    &[("Alpha", "a > e;p > b / #_"), ("Beta", "e > i / _#"), ("Gamma", "t > d / V_V")],
+    &[("One", "k > g / V_V;m > n / _#"), ("Two", "i > u / _#")],
     &[("Solo", "s > z / V_V")],
 ];
 const OWN: [&[&str]; 4] = [&["pata", "kasi te", "tika"], &["sake", "atasi"], &["mati ka"], &["tete", "isa"]];
 const EXTRA: [&[&str]; 4] = [&["loan.a"], &["sasa", "ki"], &["neo"], &["ata"]];
 
-fn group(file: usize, g: usize) -> RuleGroup { let (n, r) = FILES[file - 1][g - 1]; RuleGroup { name: n.to_string(), rule: vec![r.to_string()], description: String::new() } }
+fn group(file: usize, g: usize) -> RuleGroup { let (n, r) = FILES[file - 1][g - 1]; RuleGroup { name: n.to_string(), rule: r.split(';').map(|x| x.to_string()).collect(), description: String::new() } }
 fn filter_name(file: usize, n: u64) -> String {
     let base = (n % 100) as usize;
     let name = if base >= 1 && base <= FILES[file - 1].len() { FILES[file - 1][base - 1].0.to_string() } else { "Nonexistent".to_string() };
@@ -24,7 +26,7 @@ fn filter_name(file: usize, n: u64) -> String {
 fn write_project(dir: &Path, v: &Value) {
     for (k, groups) in FILES.iter().enumerate() {
         let mut s = String::new();
-        for (name, rule) in groups.iter() { s.push_str(&format!("@ {name}\n    {rule}\n# {name} does its thing\n")); }
+        for (name, rule) in groups.iter() { s.push_str(&format!("@ {name}\n    {}\n# {name} does its thing\n", rule.split(';').collect::<Vec<_>>().join("\n\n    "))); }
         std::fs::write(dir.join(format!("f{}.rsca", k + 1)), s).unwrap();
     }
     let n = v["n"].as_u64().unwrap() as usize;
